@@ -438,15 +438,23 @@ func (h *MuxH) Do(op MOp, seed int64) *MCall {
 				h.afs[op.AF] = c.AF
 			}
 		}
-		in := append([]byte{}, c.Payload...)
+		in, intact := callerSlice(c.Payload)
 		c.N, c.Err = h.M.WriteData(&astits.MuxerData{PID: pid, AdaptationField: c.AF, PES: &astits.PESData{Data: in, Header: c.Hdr}})
-		if string(in) != string(c.Payload) {
+		if !intact() {
 			c.Err = errors.Join(c.Err, errPayloadMutated)
 		}
 		// the caller's view of what it asked for (AF as given, before the Muxer touched it)
 		c.AF = MakeAF(op.AF, idx)
 	case "pkt":
-		c.N, c.Err = h.M.WritePacket(MakePkt(op.Pkt))
+		pk := MakePkt(op.Pkt)
+		intact := func() bool { return true }
+		if pk != nil && pk.Payload != nil {
+			pk.Payload, intact = callerSlice(pk.Payload)
+		}
+		c.N, c.Err = h.M.WritePacket(pk)
+		if !intact() {
+			c.Err = errors.Join(c.Err, errPayloadMutated)
+		}
 	case "addmany":
 		for i := 0; i < op.N; i++ {
 			if err := h.M.AddElementaryStream(astits.PMTElementaryStream{ElementaryPID: uint16(0x400 + i), StreamType: astits.StreamTypeAACAudio}); err != nil {
@@ -468,7 +476,21 @@ func (h *MuxH) Do(op MOp, seed int64) *MCall {
 	return &h.Calls[len(h.Calls)-1]
 }
 
-var errPayloadMutated = errors.New("harness: WriteData modified the caller's payload bytes")
+var errPayloadMutated = errors.New("harness: the Muxer wrote into the caller's payload buffer (the payload bytes or the memory behind them)")
+
+// callerSlice hands a payload over the way a zero-copy caller does: as a window of a larger buffer, with other
+// data of the caller right behind it (len < cap). intact reports whether the window and what lies behind it are
+// what they were.
+func callerSlice(payload []byte) (in []byte, intact func() bool) {
+	const behind = 256
+	buf := make([]byte, len(payload)+behind)
+	copy(buf, payload)
+	for i := len(payload); i < len(buf); i++ {
+		buf[i] = byte(0x30 + i%0x40)
+	}
+	snap := string(buf)
+	return buf[:len(payload)], func() bool { return string(buf) == snap }
+}
 
 // muxPIDs reads the Muxer's current stream list through its own PMT output path is not
 // possible without emitting; the stream list is read reflectively (read-only).
